@@ -176,7 +176,12 @@ def run(tier):
                      "TLC integers are 32 bit: the Euler grid is the small-number sub-grid, larger ratios are covered by the random runs",
                      "a triple whose new state is not a small rational (den <= 2000) within 64 ulp is judged on its float signs instead"],
         mc_runs=[("MC_Positivity", "MC_Positivity.cfg", 16)] + ([("MC_Positivity", "MC_Positivity_f.cfg", 16)] if tier == "thorough" else []),
-        groups=[("Judge_Positive", recs)], prefixes=["C10"], sig_of=sig_of)
+        groups=[("Judge_Positive", recs)], prefixes=["C10"], sig_of=sig_of,
+        symbolic=("Apa_Positivity", ["InvRusanov", "InvHll"],
+                  "model level, beyond the grid: Apa_Positivity.tla proves with Apalache/Z3 that one forward-Euler step of the "
+                  "first-order Rusanov and two-wave HLL(E) schemes keeps the depth / density positive for EVERY data set, EVERY wave-"
+                  "speed estimate bounding the velocities and EVERY Courant number <= 1/2 (mass equation only: pressure positivity "
+                  "and HLLC stay bounded-model + code level)"))
 
 
 if __name__ == "__main__":
